@@ -71,7 +71,7 @@ class World:
     PROBES_EXPECTED = ["multi-segment-split", "non-adjacent-indices", "descending-indices", "concat", "append-op",
                        "idle-qubits", "initial-state", "peer-fault", "after-peer-fault", "phase-op", "wrapper-gate",
                        "custom-gate", "empty-circuit", "unitary", "stepwise", "arity>=3", "rejected-request", "inplace-backend",
-                       "symbolic-circuit", "alloc-fault"]
+                       "symbolic-circuit", "alloc-fault", "grown-from-shared-list"]
 
     # ------------------------------------------------------------ generation
     def gen_plan(self, seed, tier):
@@ -91,7 +91,7 @@ class World:
         cfg = {"n": n, "sims": sims, "faults": r.choice(["none", "none", "low", "medium"]), "clients": r.randint(1, 3),
                "wrappers": r.choice([0.0, 0.3, 0.6]), "phase_ops": r.choice([0.0, 0.15, 0.3]),
                "exclude": [] if r.random() < 0.5 else ["U3"], "cache_clear": r.choice([0, 0.2]),
-               "symbolic": r.choice([0, 0.6, 1.5])}
+               "symbolic": r.choice([0, 0.6, 1.5]), "grow": r.choice([0, 0, 1.5])}
         n_steps = r.randint(5, 25)
         steps = []
         n_ops_max = 12 if n <= 3 else 8
@@ -105,8 +105,8 @@ class World:
             steps.append(mk())
         pf = {"none": 0.0, "low": 0.1, "medium": 0.3}[cfg["faults"]]
         while len(steps) < n_steps:
-            op = r.choices(["mk", "concat", "append", "wf", "unitary", "stepwise", "reject", "clear", "symeval"],
-                           [2, 2, 1.5, 8, 3, 2, 0.7, 0.3 if cfg["cache_clear"] else 0, cfg["symbolic"]])[0]
+            op = r.choices(["mk", "concat", "append", "wf", "unitary", "stepwise", "reject", "clear", "symeval", "mk_grow"],
+                           [2, 2, 1.5, 8, 3, 2, 0.7, 0.3 if cfg["cache_clear"] else 0, cfg["symbolic"], cfg["grow"]])[0]
             if op == "mk":
                 steps.append(mk())
             elif op == "concat":
@@ -135,6 +135,11 @@ class World:
                 steps.append(s)
             elif op == "symeval":
                 steps.append(self._gen_symeval(r, cfg))
+            elif op == "mk_grow":
+                # the client builds a family of circuits layer by layer from ONE growing list of operations
+                layer = gen.rand_circuit(r, n, r.randint(1, 3), wrappers=cfg["wrappers"], rich=True, exclude=cfg["exclude"], custom=0.0,
+                                         max_arity=3)["ops"]
+                steps.append({"op": "mk_grow", "args": {"layer": layer, "explicit_n": r.random() < 0.3}})
             elif op == "reject":
                 steps.append({"op": "reject", "args": {"sim": r.randrange(8), "c": r.randrange(64), "n": r.choice([0, -1])}})
             else:
@@ -300,6 +305,34 @@ class World:
         self._note_features(ctx, st, ent)
         ctx.log("mk", "ok", n=n, n_ops=len(ops))
 
+    def _do_mk_grow(self, ctx, st, step, a):
+        from orquestra.quantum.circuits import Circuit
+
+        L = st.setdefault("grow_list", [])
+        ok, new_ops = call(lambda: [gen.build_op(o) for o in a["layer"]])
+        if not ok:
+            ctx.fail("unexpected-reject", "construct", f"constructing operations {a['layer']} raised {type(new_ops).__name__}: {new_ops}")
+        L.extend(new_ops)   # the client's own list; circuits built from it earlier must not notice
+        used = max([max(o.qubit_indices) for o in L if hasattr(o, "qubit_indices")] + [-1]) + 1
+        n = used + 1 if a.get("explicit_n") else used
+        ok, circ = call(lambda: Circuit(L, n) if a.get("explicit_n") else Circuit(L))
+        ctx.check(ok, "unexpected-reject", "construct", lambda: f"Circuit(list of {len(L)} operations) raised {type(circ).__name__}: {circ}")
+        nonunit = any(_nonunitary(o["gate"]) for o in a["layer"] if "gate" in o) or bool(st.get("grow_nonunitary"))
+        st["grow_nonunitary"] = nonunit
+        ent = self._add(ctx, st, circ, list(L), n, nonunit, "construct")
+        self._note_features(ctx, st, ent)
+        if len(L) > len(new_ops):
+            ctx.probe("grown-from-shared-list")
+        ctx.log("mk_grow", "ok", n=n, n_ops=len(L))
+
+    def _still_same_program(self, ctx, ent):
+        """A circuit is the program it was built from, whatever the client did with its own containers since."""
+        with judge(ctx):
+            got = list(ent["c"].operations)
+            ctx.check(ent["c"].n_qubits == ent["n"] and len(got) == len(ent["ops"]) and all(x == y for x, y in zip(got, ent["ops"])),
+                      "refine", "program-changed-after-construction",
+                      f"circuit built from {len(ent['ops'])} operations on {ent['n']} qubits now reports {len(got)} operations on {ent['c'].n_qubits} qubits")
+
     def _do_concat(self, ctx, st, step, a):
         x, y = self._pick(st, a["a"]), self._pick(st, a["b"])
         if x is None:
@@ -353,6 +386,7 @@ class World:
         if n == 0:
             ctx.log("wf", "zero-width")
             return
+        self._still_same_program(ctx, ent)
         init = self._init_state(a["init"], n, None)
         if init is not None:
             ctx.probe("initial-state")
@@ -435,6 +469,7 @@ class World:
             ctx.log("unitary", "noop")
             return
         n = ent["n"]
+        self._still_same_program(ctx, ent)
         st["alloc"].begin_call(step.get("fault"))
         ok, u = call(ent["c"].to_unitary)
         if st["alloc"].end_call():
